@@ -124,6 +124,13 @@ def judge(s):
         return "second application raised %s on %r" % (type(e).__name__, out)
     if chem.canon(again) != chem.canon(out):
         return "not idempotent: %r -> %r -> %r" % (s, out, again)
+    # the same instance asked again about the same string (the pipeline keeps one standardiser for a whole run)
+    try:
+        repeat = standardize(s)
+    except Exception as e:
+        return "a repeated call on %r raised %s: %s" % (s, type(e).__name__, str(e)[:100])
+    if repeat != out:
+        return "a repeated call on %r gives %r instead of %r" % (s, repeat, out)
     return None
 
 
@@ -159,7 +166,10 @@ def check(run):
                 else:
                     (fails if cls == "simple" else hard_fails).append(({"kind": "smiles", "smiles": v}, "%s: %s" % (v, bad)))
             elif len(samples) < 3 and cls == "simple" and "=" in v:
-                samples.append({"input": v, "result": standardize(v)})
+                try:
+                    samples.append({"input": v, "result": standardize(v)})
+                except Exception:
+                    pass
     run.bounded("enol-index-adjacency", "simple enols written in an atom order where the oxygen is not numbered next to its carbon", 0, 0, order_fails[:1], False)
     run.bounded("hemiketal-alkoxy-oxygen", "hemiketals / hemiacetals (a carbon bearing OH and OR)", 0, 0, alkoxy_fails[:1], False)
     run.bounded("site-oxygen-explicit-hydrogen", "enol oxygens with an explicit H count / site oxygens bonded to a hydrogen graph atom", 0, 0, exph_fails[:1], False)
